@@ -86,12 +86,14 @@ def rule_unix_build(ctx, prog):
     fdv = a[4]
     ok_fd = False
     detail = f"fd operand `{tstr(fdv)}`"
-    base = fdv[1] if fdv[0] == 'field' else fdv
-    if base[0] == 'var':
-        arms = {"file": False, "anon": False}
-        for dpos, dt in b.var_defs(base[1]):
-            d = deep_strip(dt)
-            if d[0] == 'agg' and d[1] == 'tuple':
+    # the (fd, offset) pair may be a tuple assigned in two arms, or the Ok payload of an (inlined) helper with two success exits:
+    # one alternative per definition, each at the place of its definition
+    from .. import outcomes
+    alts = outcomes.feasible_alternatives(b, c.pos, ('agg', 'tuple', None, (a[4], a[5])))
+    if len(alts) >= 2:
+        arms = {"file": False, "anon": False, "other": 0}
+        for dpos, d in alts:
+            if True:
                 x, y = unref(d[3][0]), unref(d[3][1])
                 if x == ('const', -1) and y == ('const', 0):
                     fs = b.facts_at(dpos)
@@ -105,8 +107,11 @@ def rule_unix_build(ctx, prog):
                         if match(C("check_file_offset", V("f"), F(P(1), "size")), s, e):
                             f = e["f"]
                             good = match(C("AsRawFd::as_raw_fd", C("FileOffset::file", V("f"))), x, {"f": f}) and match(C("FileOffset::start", V("f")), y, {"f": f})
-                    arms["file"] = good
-        ok_fd = arms["file"] and arms["anon"]
+                    if good:
+                        arms["file"] = True
+                    else:
+                        arms["other"] += 1
+        ok_fd = arms["file"] and arms["anon"] and not arms["other"]
         detail = f"file arm: (f.file().as_raw_fd(), f.start()) behind successful check_file_offset(f, self.size) [{arms['file']}]; anonymous arm (-1, 0) [{arms['anon']}]"
     ctx.ob("R15.1.file_checked_before_mmap", b.key, ok_fd, c.where(), detail)
     # aggregates copy same-named fields
